@@ -579,6 +579,9 @@ class MapMapper(Mapper):
     @staticmethod
     def get_paramlist_from_schema(schema, definitions):
         additional_properties = schema.get(SCHEMA_ADDITIONAL_PROPERTIES, None)
+        if not isinstance(additional_properties, dict):
+            # a boolean additionalProperties is not a schema for the values
+            additional_properties = None
         pattern_properties = schema.get(SCHEMA_PATTERN_PROPERTIES, None)
         property_names = schema.get(SCHEMA_PATTERN_PROPERTIES, {})
         if pattern_properties and (
